@@ -17,6 +17,7 @@ import (
 	"os"
 	"path/filepath"
 	"reflect"
+	"runtime"
 	"sort"
 	"strings"
 	"sync"
@@ -37,7 +38,7 @@ type c19KV struct {
 }
 
 type c19Op struct {
-	K    string  `json:"k"`           // put | del | txn | fill | delprefix | sleep | mute | unmute | cancel | restart | stop | start
+	K    string  `json:"k"`           // put | del | txn | fill | delprefix | sleep | mute | unmute | cancel | restart | stop | start | hold | release
 	M    int     `json:"m,omitempty"` // stop/start: member whose etcd server is stopped/started (multi-member cluster)
 	Key  string  `json:"key,omitempty"`
 	Val  string  `json:"val,omitempty"`
@@ -89,7 +90,8 @@ func c19IsWrite(k string) bool {
 	return k == "put" || k == "del" || k == "txn" || k == "delprefix" || k == "fill"
 }
 func c19IsFault(k string) bool {
-	return k == "mute" || k == "unmute" || k == "cancel" || k == "restart" || k == "stop" || k == "start"
+	return k == "mute" || k == "unmute" || k == "cancel" || k == "restart" || k == "stop" || k == "start" ||
+		k == "hold" || k == "release"
 }
 
 // ---- fault injection on the watch stream of the syncer's client (harness side only)
@@ -151,7 +153,12 @@ type c19Env struct {
 	c     *cluster   // the member the syncer lives on
 	w     *cluster   // the handle through which the harness writes and reads back (single node: c itself)
 	nodes []*cluster // multi-member cluster: all members (nodes[0] == c)
-	seq   int64
+	// forced interleaving "writes while a pull is in flight": between the ops hold and release the
+	// harness owns c.clientMutex, every pull of the case's syncer is parked in getClient, and the
+	// harness writes and reads with the raw etcd client (cases with hold run one at a time)
+	held bool
+	raw  *clientv3.Client
+	seq  int64
 }
 
 // c19TempDir: home of the embedded etcd members (about 120 MB each).  Inside the driver's run
@@ -306,11 +313,15 @@ func c19Compress(c [][2]string) [][2]string {
 func (e *c19Env) read(ns string, prefix bool, target string, mismatches *int) ([][2]string, error) {
 	var res [][2]string
 	err := c19Retry(func() error {
-		client, err := e.w.getClient()
-		if err != nil {
-			return err
+		client := e.raw
+		if !e.held {
+			var err error
+			if client, err = e.w.getClient(); err != nil {
+				return err
+			}
 		}
-		ctx, cancel := e.w.requestContext()
+		var err error
+		ctx, cancel := context.WithTimeout(context.Background(), e.w.requestTimeout)
 		defer cancel()
 		var resp *clientv3.GetResponse
 		if prefix {
@@ -330,6 +341,9 @@ func (e *c19Env) read(ns string, prefix bool, target string, mismatches *int) ([
 	})
 	if err != nil {
 		return res, err
+	}
+	if e.held { // the cluster's own read API is parked on the mutex the harness holds
+		return c19Compress(res), nil
 	}
 	var api [][2]string
 	apiErr := c19Retry(func() error {
@@ -499,6 +513,10 @@ func (e *c19Env) run(in c19In) (obs c19Obs) {
 		if r := recover(); r != nil {
 			bad("panic: %v", r)
 		}
+		if e.held { // never leave the cluster's client mutex locked
+			e.held = false
+			e.c.clientMutex.Unlock()
+		}
 	}()
 	if in.PullMs < 20 {
 		in.PullMs = 20
@@ -634,11 +652,48 @@ func (e *c19Env) run(in c19In) (obs c19Obs) {
 		switch op.K {
 		case "put":
 			val := c19Fill(op.Val, op.Size)
+			if e.held {
+				err = c19Retry(func() error { return e.rawTxn(map[string]*string{ns + op.Key: &val}) })
+				break
+			}
 			err = c19Retry(func() error { return e.w.Put(ns+op.Key, val) })
 		case "del":
+			if e.held {
+				err = c19Retry(func() error { return e.rawDelete(ns+op.Key, false) })
+				break
+			}
 			err = c19Retry(func() error { return e.w.Delete(ns + op.Key) })
 		case "delprefix":
+			if e.held {
+				err = c19Retry(func() error { return e.rawDelete(ns+op.Key, true) })
+				break
+			}
 			err = c19Retry(func() error { return e.w.DeletePrefix(ns + op.Key) })
+		case "hold":
+			if e.held || e.w != e.c || len(e.nodes) > 1 || in.SendLimit > 0 || faults || restarts {
+				bad("hold: not available here")
+				break
+			}
+			if e.raw, err = e.c.getClient(); err != nil {
+				break
+			}
+			e.c.clientMutex.Lock()
+			e.held = true
+			// wait until the run loop of every subscription of this case is parked in its next pull
+			want := 0
+			for i := range recs {
+				if recs[i] != nil {
+					want++
+				}
+			}
+			for until := time.Now().Add(3*pull + 2*time.Second); c19ParkedPulls() < want && time.Now().Before(until); {
+				time.Sleep(5 * time.Millisecond)
+			}
+		case "release":
+			if e.held {
+				e.held = false
+				e.c.clientMutex.Unlock()
+			}
 		case "txn":
 			kvs := map[string]*string{}
 			for _, kv := range op.KVs {
@@ -699,6 +754,10 @@ func (e *c19Env) run(in c19In) (obs c19Obs) {
 			readBack()
 		}
 	}
+	if e.held {
+		e.held = false
+		e.c.clientMutex.Unlock()
+	}
 	subscribeAt(len(in.Ops))
 	close(historyDone)
 
@@ -757,10 +816,54 @@ func (e *c19Env) run(in c19In) (obs c19Obs) {
 	return
 }
 
+// c19ParkedPulls: number of syncer run loops currently parked inside syncer.pull on the
+// cluster's client mutex
+func c19ParkedPulls() int {
+	buf := make([]byte, 8<<20)
+	n := runtime.Stack(buf, true)
+	cnt := 0
+	for _, g := range strings.Split(string(buf[:n]), "\n\n") {
+		if strings.Contains(g, "(*syncer).pull") && strings.Contains(g, "RLock") {
+			cnt++
+		}
+	}
+	return cnt
+}
+
+func (e *c19Env) rawTxn(kvs map[string]*string) error {
+	var ops []clientv3.Op
+	for k, v := range kvs {
+		if v != nil {
+			ops = append(ops, clientv3.OpPut(k, *v))
+		} else {
+			ops = append(ops, clientv3.OpDelete(k))
+		}
+	}
+	ctx, cancel := context.WithTimeout(context.Background(), 10*time.Second)
+	defer cancel()
+	_, err := e.raw.Txn(ctx).Then(ops...).Commit()
+	return err
+}
+
+func (e *c19Env) rawDelete(key string, prefix bool) error {
+	ctx, cancel := context.WithTimeout(context.Background(), 10*time.Second)
+	defer cancel()
+	var err error
+	if prefix {
+		_, err = e.raw.Delete(ctx, key, clientv3.WithPrefix())
+	} else {
+		_, err = e.raw.Delete(ctx, key)
+	}
+	return err
+}
+
 // txn: PutAndDelete of the cluster handle (needs the member's lease even when it does not use
 // it); through the bare writer handle of the multi-member environment the same transaction
 // is issued directly
 func (e *c19Env) txn(kvs map[string]*string) error {
+	if e.held {
+		return e.rawTxn(kvs)
+	}
 	if e.w == e.c {
 		return e.w.PutAndDelete(kvs)
 	}
@@ -1184,6 +1287,53 @@ func c19GenBig(r *vfRand, total int) c19In {
 	return in
 }
 
+// forced interleaving: writes land while the periodic pull of every subscription is in flight
+// (parked on the client mutex), so their watch events are queued behind a pull that already saw
+// the later state - put-then-delete, delete-then-recreate, several overwrites
+func c19GenHold(r *vfRand) c19In {
+	in := c19In{PullMs: r.PickInt(100, 150)}
+	key := "a/x"
+	vals := []string{"v0", "v1", "v2", "", "1"}
+	v := func() string { return vals[r.Intn(len(vals))] }
+	in.Ops = append(in.Ops, c19Op{K: "put", Key: key, Val: "v0"})
+	if r.Bool() {
+		in.Ops = append(in.Ops, c19Op{K: "put", Key: "a/y", Val: v()})
+	}
+	at := len(in.Ops)
+	in.Ops = append(in.Ops, c19Op{K: "sleep", Ms: r.PickInt(30, 80)})
+	rounds := 1
+	if vfTier() == "thorough" {
+		rounds = r.Range(1, 2)
+	}
+	for round := rounds; round > 0; round-- {
+		in.Ops = append(in.Ops, c19Op{K: "hold"})
+		switch r.Intn(5) {
+		case 0, 1:
+			in.Ops = append(in.Ops, c19Op{K: "put", Key: key, Val: "v1"}, c19Op{K: "del", Key: key})
+		case 2:
+			in.Ops = append(in.Ops, c19Op{K: "put", Key: key, Val: v()}, c19Op{K: "put", Key: key, Val: v()}, c19Op{K: "del", Key: key})
+		case 3:
+			in.Ops = append(in.Ops, c19Op{K: "del", Key: key}, c19Op{K: "put", Key: key, Val: v()}, c19Op{K: "delprefix", Key: "a/"})
+		default:
+			in.Ops = append(in.Ops, c19Op{K: "put", Key: key, Val: "v1"}, c19Op{K: "put", Key: "a/y", Val: v()},
+				c19Op{K: "put", Key: key, Val: "v2"}, c19Op{K: "put", Key: key, Val: "v0"})
+		}
+		in.Ops = append(in.Ops, c19Op{K: "release"}, c19Op{K: "sleep", Ms: in.PullMs + 60})
+		if round > 1 {
+			in.Ops = append(in.Ops, c19Op{K: "put", Key: key, Val: "v0"}, c19Op{K: "sleep", Ms: 60})
+		}
+	}
+	if r.Chance(1, 3) {
+		in.Ops = append(in.Ops, c19Op{K: "put", Key: key, Val: v()})
+	}
+	in.Subs = []c19Sub{
+		{Kind: "sync", Target: key, At: at, Consumer: "fast"},
+		{Kind: "raw", Target: key, At: r.PickInt(0, at), Consumer: "fast"},
+		{Kind: r.PickStr("prefix", "rawprefix"), Target: "a/", At: at, Consumer: "fast"},
+	}
+	return in
+}
+
 func TestVerifC19(t *testing.T) {
 	out := vfOpen(t)
 	defer out.Close()
@@ -1219,8 +1369,8 @@ func TestVerifC19(t *testing.T) {
 		n := vfN(200)
 		for i := 0; i < n; i++ {
 			r := root.Fork(i)
-			// every 60th history stops and restarts the etcd server in the middle
-			restart := i%60 == 7
+			// every 80th history stops and restarts the etcd server in the middle
+			restart := i%80 == 7
 			// thorough tier: every 5th history comes from the adversarial generator (longer bursts,
 			// always a watch fault, late consumers)
 			hard := adv || (vfTier() == "thorough" && i%5 == 4)
@@ -1248,20 +1398,27 @@ func TestVerifC19(t *testing.T) {
 		if vfTier() == "thorough" {
 			totals = append([]int{513, 1024, 512, 1536}, above...)
 		}
+		nhold := 3
+		if vfTier() == "thorough" {
+			nhold = 40
+		}
+		for i := 0; i < nhold; i++ {
+			jobs = append(jobs, &job{id: fmt.Sprintf("gen-hold-%d", i), src: "gen", in: c19GenHold(root.Fork(7000 + i))})
+		}
 		for i, total := range totals {
 			jobs = append(jobs, &job{id: fmt.Sprintf("gen-big-%d", total), src: "gen", in: c19GenBig(root.Fork(6001+i), total)})
 		}
 	}
 	for _, j := range jobs {
 		for _, op := range j.in.Ops {
-			if op.K == "restart" {
+			if op.K == "restart" || op.K == "hold" {
 				j.serial = true
 			}
 		}
 	}
 	// histories without a server restart run concurrently (separate namespaces, separate
 	// syncers); restart histories run one at a time afterwards
-	workers := 10
+	workers := 12
 	var wg sync.WaitGroup
 	ch := make(chan *job)
 	for w := 0; w < workers; w++ {
